@@ -50,7 +50,8 @@ class EventDebouncer(BaseThread):
         with self._cond:
             while True:
                 # Wait for first event (or shutdown).
-                self._cond.wait()
+                while not self._events and self.should_keep_running():
+                    self._cond.wait()
 
                 if self.debounce_interval_seconds:
                     # Wait for additional events (or shutdown) until the debounce interval passes.
